@@ -383,6 +383,11 @@ class Interp:
     # operators
     # ------------------------------------------------------------------
     def binop(self, op, a, b):
+        if (isinstance(a, Opaque) and a.kind == "unknown") or (isinstance(b, Opaque) and b.kind == "unknown"):
+            # arithmetic on a value nothing is known about (an undeclared attribute): nothing is known about the
+            # result either (assumed not to raise -- listed)
+            self.ctx.assumptions_used.add("record:arithmetic on an undeclared attribute of unknown type does not raise")
+            return Opaque(self.ctx.fresh_const("unknown", OpaqueSort), "unknown")
         if not isinstance(a, Sym) and not isinstance(b, Sym) and not isinstance(a, SObj) and not isinstance(b, SObj) \
                 and type(a).__name__ != "SList":
             return self._native_binop(op, a, b)
@@ -1157,6 +1162,9 @@ class Interp:
             self.ctx.assumptions_used.add("record:element of an opaque sequence (decoded response) exists at the index used")
             f = z3.Function(f"item_{idx}".replace("-", "m"), OpaqueSort, OpaqueSort)
             return Opaque(f(obj.t), "opaque")
+        if isinstance(obj, Opaque) and obj.kind == "unknown":
+            self.ctx.assumptions_used.add("record:entry of an undeclared attribute of unknown type exists under the key used")
+            return Opaque(self.ctx.fresh_const("unknown", OpaqueSort), "unknown")
         if isinstance(obj, Opaque) and isinstance(idx, str):
             # entry of a mapping the analysis knows nothing about (the validated configuration) under a concrete
             # string key: an uninterpreted function of the mapping; assumed: the key is present
@@ -1173,6 +1181,10 @@ class Interp:
             raise PyRaise(e)
 
     def store_subscript(self, obj, idx, value):
+        if isinstance(obj, Opaque) and obj.kind == "unknown":
+            # an entry of an undeclared container of unknown type (a statistics dict): the store concerns nobody's clause
+            self.ctx.assumptions_used.add("record:store into an undeclared attribute of unknown type does not raise")
+            return
         if isinstance(obj, SOpt):
             obj = self.unwrap_opt(obj, "subscripted value")
         if isinstance(obj, SDict):
